@@ -501,6 +501,7 @@ def main():
     payload = json.load(open(sys.argv[1]))
     all_types = payload.get('all_types', True)
     all_classes = payload.get('all_classes', True)
+    all_forms = payload.get('all_forms', True)
     seed = payload.get('seed', 0)
     only = payload.get('only')  # replay of one finding: {'type':..., 'form':..., 'cls':..., 'phase':...}
     out = {'n': 0, 'nontrivial': 0, 'distinct': 0, 'mismatches': [], 'keys': {}, 'by_type': {}, 'ops': {}}
@@ -513,7 +514,7 @@ def main():
             for e in rec['log']:
                 out['ops'][e['op']['op']] = out['ops'].get(e['op']['op'], 0) + 1
             types = [t for t in TYPES if t.kind == rec['kind'] and t.realisable(rec['span'])]
-            combos = [(t, f) for t in types for f in t.forms]
+            combos = [(t, f) for t in types for f in (t.forms if all_forms else [t.forms[(idx + seed) % len(t.forms)]])]
             if only:
                 combos = [(TYPE_BY_NAME[only['type']], only['form'])]
             elif not all_types and combos:
